@@ -18,7 +18,7 @@ pub fn check() -> Check {
         spec: CheckSpec {
             id: "C06",
             level: "exploration",
-            rule: "one case = one TCP connection to a child process running the real Server over a real store: a generated stream of 20-200 well-formed SET/GET/DEL commands (keys: arbitrary UTF-8 incl. empty, multi-byte, CR, LF, NUL; values: arbitrary bytes 0 B..256 KB; DEL with 1-4 keys incl. repeats) is sent under a drawn segmentation (one byte at a time, random cuts, frame-aligned, all at once; optional pauses between segments so that the server really sees partial frames) and pipelining depth (1, 2-8, whole stream), and the received byte stream must equal, byte for byte, the reply stream the map model produces with the reference encoder (+OK, bulk, $-1, :n with every DEL key counted as it is deleted). Every stream starts by deleting its key pool, and is sent 2-3 times under different (segmentation, depth) settings. At the end of a worker the store is dumped through the child's control channel and compared with the model. Non-trivial/distinct = distinct (request stream hash, segmentation class, depth class) with at least one cut inside a frame or depth > 1.",
+            rule: "one case = one TCP connection to a child process running the real Server over a real store: a generated stream of 20-200 well-formed SET/GET/DEL commands (keys: arbitrary UTF-8 incl. empty, multi-byte, CR, LF, NUL; values: arbitrary bytes 0 B..256 KB; DEL with 1-4 keys incl. repeats) is sent under a drawn segmentation (one byte at a time, random cuts, frame-aligned, all at once; optional pauses between segments so that the server really sees partial frames) and pipelining depth (1, 2-8, whole stream, whole stream followed by a half-close of the client's sending side before it reads anything, or 'overhang': each write carries the rest of one request and the first bytes of the next and the client waits for the reply), and the received byte stream must equal, byte for byte, the reply stream the map model produces with the reference encoder (+OK, bulk, $-1, :n with every DEL key counted as it is deleted). Every stream starts by deleting its key pool, and is sent 2-3 times under different (segmentation, depth) settings. At the end of a worker the store is dumped through the child's control channel and compared with the model. Non-trivial/distinct = distinct (request stream hash, segmentation class, depth class) with at least one cut inside a frame or depth > 1.",
             assumptions: vec!["the receiver-side split of TCP segments is influenced (TCP_NODELAY, pauses), not controlled; C08 controls it exactly at the Connection layer", "one server child per worker process; connections of one worker run one after another, so the model is a plain map"],
             death_is_violation: false,
         },
@@ -198,6 +198,9 @@ pub fn run_connection(port: u16, r: &mut Rng, cmds: &[Cmd], model: &mut HashMap<
         1 => r.range(2, 8) as usize,
         _ => cmds.len(),
     };
+    // class 4: everything is sent, then the client closes its sending side (a legal half-close) and
+    // only then reads: every request was sent completely, so every reply is still owed
+    let half_close = depth_class == 4;
     let mut cut_inside = false;
     let mut i = 0;
     while i < cmds.len() {
@@ -246,7 +249,13 @@ pub fn run_connection(port: u16, r: &mut Rng, cmds: &[Cmd], model: &mut HashMap<
         let mut txc = tx.try_clone().map_err(|e| Failure { sig: "connect-failed", desc: e.to_string() })?;
         let b2 = batch.clone();
         let c2 = cuts.clone();
-        let w = std::thread::spawn(move || crate::netcli::write_segments(&mut txc, &b2, &c2, pause));
+        let w = std::thread::spawn(move || {
+            let r = crate::netcli::write_segments(&mut txc, &b2, &c2, pause);
+            if half_close {
+                let _ = txc.shutdown(std::net::Shutdown::Write);
+            }
+            r
+        });
         let deadline = Instant::now() + Duration::from_secs(20);
         let res = rx.need(expect.len(), deadline);
         let wres = w.join();
@@ -299,6 +308,12 @@ pub fn run_connection(port: u16, r: &mut Rng, cmds: &[Cmd], model: &mut HashMap<
         return Err(Failure { sig: "extra-reply-bytes", desc: format!("after all {} replies the server sent more bytes: {}", cmds.len(), show(&rx.buf)) });
     }
     let _ = tx.flush();
+    if half_close {
+        out.count("connections_half_closed_before_reading", 1);
+        if matches!(rx.drain(Instant::now() + Duration::from_secs(5)), ReadErr::Eof) && rx.buf.is_empty() {
+            out.count("half_closed_connections_ended_by_the_server_after_the_last_reply", 1);
+        }
+    }
     out.count("request_bytes", total_req as u64);
     Ok((cut_inside || depth > 1, depth))
 }
@@ -334,7 +349,7 @@ fn worker(ctx: &Ctx, out: &mut Out) {
         let runs = r.range(2, 3);
         for _ in 0..runs {
             let seg_class = r.weighted(&[25, 35, 20, 20]);
-            let depth_class = r.weighted(&[28, 28, 24, 20]);
+            let depth_class = r.weighted(&[24, 24, 20, 18, 14]);
             out.evaluations += 1;
             out.count("connections", 1);
             match run_connection(srv.port, &mut r, &cmds, &mut model, seg_class, depth_class, out) {
